@@ -5,6 +5,7 @@ import functools
 import heapq
 import itertools
 import math
+import numbers
 
 from ..core import ContractionTree
 from ..oe import PathOptimizer
@@ -361,8 +362,12 @@ class ContractionProcessor:
                     ix = self.indmap[ind] = c
                     self.edges[ix] = {i: None}
                     self.appearances.append(1)
-                    # n.b. python ints, e.g. numpy integers would overflow
-                    self.sizes.append(int(size_dict[ind]))
+                    size = size_dict[ind]
+                    if isinstance(size, numbers.Integral):
+                        # n.b. python ints, e.g. numpy integers would overflow,
+                        # (but sizes can also be floats, e.g. with jitter)
+                        size = int(size)
+                    self.sizes.append(size)
                     c += 1
                 else:
                     # seen index already
